@@ -132,4 +132,4 @@ def run(ctx):
         extra.append({"seed": ctx.seed, "jitter": 0.0, "payloads": pl, "script": script, "shape": "targeted-many-blocking-threads", "timeout": 25.0})
     scen.run_family(ctx, sh, names=NAMES, extra_scenarios=extra, allow=(), mc_invariants=["AtMostOnce"], mc_properties=[], per_shape=60 if thorough else 8, depth=45, label="c11", script_hook=fix_script)
     ctx.extra["rule"] = "shapes = per coroutine flavour: two adopted payloads, one service, two executed payloads of that flavour, one payload of the other flavour and two thread payloads, submitted from driver / outside thread / payloads; synchronous sections are commanded to several payloads of the flavour at once; one thread payload blocks for ever while the coroutine payloads are asked for more steps"
-    ctx.assumptions = RT_ASSUMPTIONS + ["overlap is detected through enter/exit events of synchronous sections recorded in the global event sequence; thread and loop identity are recorded by the payloads themselves", "a command not acknowledged within 1 s while a thread payload blocks (and nothing has triggered termination) counts as a stall"]
+    ctx.assumptions = RT_ASSUMPTIONS + ["overlap is detected through enter/exit events of synchronous sections recorded in the global event sequence; thread and loop identity are recorded by the payloads themselves", "a command not acknowledged within 2.5 s while a thread payload blocks (and nothing has triggered termination) counts as a stall"]
